@@ -31,10 +31,14 @@ package connectconformance
 //@ func expandRequestData
 //@   requires testCase != nil && testCase.Request != nil
 //@   requires forall i int, j int :: 0 <= i && i < j && j < len(testCase.Request.RequestMessages) ==> testCase.Request.RequestMessages[i] != testCase.Request.RequestMessages[j]
-//@   modifies pbPad, anySize, []byte
+//@   modifies pbPad, anySize, anySource, pbDecodedFrom, []byte
+//@   ensures @same-message result == nil ==> (forall i int :: 0 <= i && i < len(testCase.ExpandRequests) && testCase.ExpandRequests[i].SizeRelativeToLimit != nil ==>
+//@       anySource[testCase.Request.RequestMessages[i]] == testCase.Request.RequestMessages[i])
 //@   ensures @size result == nil ==> (forall i int :: 0 <= i && i < len(testCase.ExpandRequests) && testCase.ExpandRequests[i].SizeRelativeToLimit != nil ==>
 //@       i < len(testCase.Request.RequestMessages) && anySize[testCase.Request.RequestMessages[i]] == 204800 + *testCase.ExpandRequests[i].SizeRelativeToLimit)
 //@   loop 0: invariant len(testCase.ExpandRequests) <= len(testCase.Request.RequestMessages)
+//@           invariant forall i int :: 0 <= i && i <= rangeindex && testCase.ExpandRequests[i].SizeRelativeToLimit != nil ==>
+//@       anySource[testCase.Request.RequestMessages[i]] == testCase.Request.RequestMessages[i]
 //@           invariant forall i int :: 0 <= i && i <= rangeindex && testCase.ExpandRequests[i].SizeRelativeToLimit != nil ==>
 //@       anySize[testCase.Request.RequestMessages[i]] == 204800 + *testCase.ExpandRequests[i].SizeRelativeToLimit
 //@   loop 1: invariant 0 <= adjustCount && adjustCount <= 3 && pbPad[reflectReq] >= 0 && atentry(pbPad[reflectReq]) >= 0
@@ -46,6 +50,8 @@ package connectconformance
 //@           invariant adjustCount >= 3 ==> fieldSize(padStep(padStep(atentry(pbPad[reflectReq]), totalSize - pbBase(reflectReq)), totalSize - pbBase(reflectReq))) != totalSize - pbBase(reflectReq)
 //@           invariant adjustCount == 3 ==> pbPad[reflectReq] == padStep(padStep(padStep(atentry(pbPad[reflectReq]), totalSize - pbBase(reflectReq)), totalSize - pbBase(reflectReq)), totalSize - pbBase(reflectReq))
 // completeness: the "can't pad" error is only given when no padding length reaches the size
+// the range check rejects exactly the totals outside [0, 2^32-1]
+//@   assert_at "results in an invalid request size": totalSize < 0 || totalSize > 4294967295
 //@   assert_at "can't pad to exactly": forall n int :: n >= 0 ==> pbSize(reflectReq, n) != totalSize
 //@   assert_at "can't shrink to exactly": forall n int :: n >= 0 ==> pbSize(reflectReq, n) != totalSize
 
